@@ -250,6 +250,7 @@ func (m *Manager[T]) scan(id string) error {
 			log.Printf("Error starting client %v: %v", n, err)
 			continue
 		}
+		verifManagerWindow(n.ID)
 
 		go func() {
 			err := cs.run()
